@@ -82,6 +82,13 @@ fn main() {
                 STARTED.store(now_s(), std::sync::atomic::Ordering::SeqCst);
                 let trace = Runner::run_script(&script, run, probe);
                 STARTED.store(0, std::sync::atomic::Ordering::SeqCst);
+                // a panic inside the code under test is a finding for whatever property is being checked
+                for e in trace.iter().filter(|e| e["ev"] == "Panic") {
+                    use std::io::Write as _;
+                    let mut f = std::fs::OpenOptions::new().create(true).append(true)
+                        .open(format!("{outdir}/panics.ndjson")).expect("panics file");
+                    writeln!(f, "{}", serde_json::json!({"run":run,"msg":e["msg"],"what":e["what"],"t":e["t"]})).unwrap();
+                }
                 for (p, o) in projs.iter().zip(outs.iter_mut()) {
                     for l in proj::project(p, &trace) {
                         writeln!(o, "{}", l).unwrap();
